@@ -26,7 +26,7 @@ ASSUMPTIONS = [
 REQUIRE = {
     "monitors": {"contract: generate returns exactly N physical events": 100, "contract: 0 <= acceptance weight <= 1": 100,
                  "sub-system mass spectrum == LIPS density": 10, "Dalitz plot flat": 3, "isotropy": 10, "weighted mode == unweighted mode": 5,
-                 "ChainGenerator nested kinematics": 10, "gen_mc / generate_phsp_p": 3},
+                 "ChainGenerator nested kinematics": 10, "gen_mc / generate_phsp_p": 3, "calibration independent of history": 3},
     "cover": {"n_body": [2, 3, 4, 5, 6]},
     "min_nontrivial": 40,
 }
@@ -356,15 +356,26 @@ def run(ctx):
         m0, mi = top
         N = int(rng.choice([1, 7, 300]))
         desc = {"struct": repr(top), "N": N}
+        calibrated = i % 4 == 3
+        desc["after_cal_max_weight"] = calibrated
         try:
-            with time_limit(40):
-                out = psm.generate_phsp(m0, mi, N)
+            with time_limit(60):
+                if calibrated:
+                    # the optional calibration of every step of the cascade (two-body steps included), then the same request
+                    cg = psm.ChainGenerator(m0, mi)
+                    cg.cal_max_weight()
+                    for g_ in cg.gen:
+                        g_._vh_calmax = True
+                    out = cg.generate(N)
+                else:
+                    out = psm.generate_phsp(m0, mi, N)
         except CaseTimeout:
             ctx.count("case_timeout(inconclusive):chain")
             continue
         except Exception as e:
-            ctx.violation("ChainGenerator nested kinematics", ctx.exc_witness(e, **desc), mechanism="ChainGenerator raises")
+            ctx.violation("ChainGenerator nested kinematics", ctx.exc_witness(e, **desc), mechanism="ChainGenerator raises" + (" (after cal_max_weight)" if calibrated else ""))
             continue
+        ctx.covered("chain_calibrated", calibrated)
 
         def walk(struct, res):
             """returns total momentum of this node and checks masses"""
@@ -388,6 +399,86 @@ def run(ctx):
         ctx.case(("chain", repr(top), N), nontrivial=N >= 7)
         ctx.covered("chain_depth", depth)
 
+    # ---------------- calibration history: the optional bound calibration of one generator must not depend on what was calibrated
+    # before in the process.  A second generator with the SAME masses in another order is calibrated after the first; its bound is
+    # compared with the bound the same generator (same order, same TensorFlow seed) gets in a fresh interpreter.  cal_max_weight
+    # itself is known to be unreliable (recorded finding, keyed on weights > 1 after calibration); a weight above one whose bound
+    # differs from the fresh-process bound is a different defect and is reported under its own mechanism.
+    import itertools as _it
+    import json as _json
+    import subprocess as _sp
+    import sys as _sys
+
+    n_h = ctx.pick(8, 60)
+    todo = []
+    for i, rng in ctx.cases("calibration_history", n_h):
+        n = 4 + i % 2
+        for _ in range(50):
+            m0, ms, qk = mass_set(rng, n)
+            if len(set(ms)) >= 3 and qk in ("medium", "large"):
+                break
+        else:
+            continue
+        perms = [p_ for p_ in _it.permutations(range(n))]
+        k1, k2 = rng.choice(len(perms), size=2, replace=False)
+        o1, o2 = [ms[j] for j in perms[k1]], [ms[j] for j in perms[k2]]
+        if o1 == o2:
+            continue
+        s1, s2 = int(rng.integers(1, 10**6)), int(rng.integers(1, 10**6))
+        try:
+            with time_limit(60):
+                g1 = G(m0, o1)
+                tf.random.set_seed(s1)
+                g1.cal_max_weight()
+                g2 = G(m0, o2)
+                tf.random.set_seed(s2)
+                g2.cal_max_weight()
+                b2 = float(g2.m_wtMax)
+                state["in_cal_max"] = True  # the weight contract is evaluated here, with the classification below
+                try:
+                    w2, _p = g2.generate(ctx.pick(20000, 60000), flatten=False)
+                finally:
+                    state["in_cal_max"] = False
+                todo.append({"i": i, "m0": m0, "first_order": o1, "second_order": o2, "seed_second": s2, "bound_in_history": b2, "max_weight": float(np.max(np.asarray(w2)))})
+        except CaseTimeout:
+            ctx.count("case_timeout(inconclusive):calibration_history")
+        except Exception as e:
+            ctx.violation("calibration independent of history", ctx.exc_witness(e, m0=m0, first_order=o1, second_order=o2), mechanism="calibration history raises")
+    if todo:
+        code = (
+            "import sys, json\n"
+            "from vh import bootstrap\nbootstrap.init(0, threads=2)\n"
+            "import tensorflow as tf\nimport tf_pwa.phasespace as psm\n"
+            "out = []\n"
+            "for c in json.load(sys.stdin):\n"
+            "    g = psm.PhaseSpaceGenerator(c['m0'], c['second_order'])\n"
+            "    tf.random.set_seed(c['seed_second'])\n"
+            "    g.cal_max_weight()\n"
+            "    out.append(float(g.m_wtMax))\n"
+            "print('RESULT' + json.dumps(out))\n"
+        )
+        try:
+            pr = _sp.run([_sys.executable, "-c", code], input=_json.dumps(todo), capture_output=True, text=True, timeout=ctx.pick(300, 900))
+            line = [l for l in pr.stdout.splitlines() if l.startswith("RESULT")]
+            fresh = _json.loads(line[-1][6:]) if line else None
+        except _sp.TimeoutExpired:
+            fresh = None
+        if fresh is None:
+            ctx.count("calibration_history reference process failed (inconclusive)")
+        else:
+            for c, bf in zip(todo, fresh):
+                same = abs(c["bound_in_history"] - bf) <= 1e-9 * abs(bf)
+                over = c["max_weight"] > 1.0 + 1e-12
+                wit = dict(c, bound_in_fresh_process=bf)
+                if over and same:
+                    # the recorded unreliability of cal_max_weight itself (the generator alone reproduces the too-small bound)
+                    ctx.check("contract: 0 <= acceptance weight <= 1", False, wit, mechanism="acceptance weight > 1 (after cal_max_weight)")
+                else:
+                    ctx.check("calibration independent of history", not over, wit,
+                              mechanism="acceptance weight > 1 after cal_max_weight, bound differs from the one the same generator gets in a fresh process")
+                ctx.case(("calhist", c["i"]), nontrivial=True)
+                ctx.covered("calibration_history_bound_reproduced", same)
+
     # ---------------- gen_mc and ConfigLoader.generate_phsp_p
     n_g = ctx.pick(12, 100)
     for i, rng in ctx.cases("api", n_g):
@@ -406,7 +497,14 @@ def run(ctx):
 
                 card = cards.CardGen(rng, "_c10s%di%d" % (ctx.seed, i), nbody=n, n_chains=(1, 2), final_j2=(0,), res_j2_int=(0, 2)).make()
                 cfg = cards.load(card)
-                p = cfg.generate_phsp_p(N)
+                cal_max = bool((i // 3) % 2)
+                try:
+                    p = cfg.generate_phsp_p(N, cal_max=True) if cal_max else cfg.generate_phsp_p(N)
+                except Exception as e2:
+                    ctx.violation("gen_mc / generate_phsp_p", ctx.exc_witness(e2, card=cards.short(card), N=N, cal_max=cal_max),
+                                  mechanism="ConfigLoader.generate_phsp_p raises" + (" (cal_max=True)" if cal_max else ""))
+                    continue
+                ctx.covered("generate_phsp_p_cal_max", cal_max)
                 fm = {f["name"]: f["mass"] for f in card["meta"]["finals"]}
                 arrs = {str(k): np.asarray(v) for k, v in p.items()}
                 M0 = card["meta"]["top"]["mass"]
